@@ -916,14 +916,14 @@ def rules(repo=None):
 
 
 EXPLANATION = (
-    "Six structural necessary conditions of the round trip. R1: every row of get_hdf5_data_type agrees with its HDF5 constant "
+    "Seven structural necessary conditions of the round trip. R1: every row of get_hdf5_data_type agrees with its HDF5 constant "
     "on class, width and byte order and the table is exhaustive for what DigitalRFWriter can pass. R2: regular-language "
     "equality of the C writer's final file-name/sub-directory formats with the reader's formats, inclusion in the listing "
     "grammar. R3: float-taint analysis of DigitalRFReader._get_file_list and its four callers (no true division, float "
     "literal or longdouble in the lookup). R4: the extension passes PyArray_DATA/DIMS of the same array, per-block pointers "
     "in the split loop; _cast_input_array is contiguous + casting='safe' on every path. R5: PyArg_ParseTuple units vs C "
     "types, Python call-site argument order vs parsed variables, wrapper-to-library argument order by parameter name, "
-    "Py_BuildValue order vs unpacking. R6: the uint64 block index is only used through int(). Does NOT decide block "
+    "Py_BuildValue order vs unpacking. R6: the uint64 block index is only used through int(). R7: byte-order provenance of the writer's dtype attributes: every dtype the input is cast to on the way to the extension carries the byte order that is reported to the library (a complex type built from a format string is native). Does NOT decide block "
     "cutting / offset arithmetic or the merge of blocks.")
 TECHNIQUE = ('clang JSON AST + Python ast; concrete evaluation of the dtype table; regular-language algebra on name formats; float-taint; reaching definitions + symbolic expansion of extension arguments; cross-language interface agreement')
 ASSUMPTIONS = ["HDF5 predefined type names encode class, width and order as documented", "numpy dtype.kind/itemsize/byteorder semantics",
